@@ -421,7 +421,8 @@ enum AIns {
     Plain(u8),       // variant
     Jmp(u8, usize),  // variant, target unit
     Jcc(u8, usize),  // variant, target unit
-    Stop,
+    Call(u8, usize), // linking branch / call: the lifter keeps lifting after it (no successor for the target)
+    Stop(u8),        // variant
 }
 fn be32(w: u32) -> [u8; 4] { w.to_be_bytes() }
 fn rd_be32(b: &[u8]) -> u32 { u32::from_be_bytes([b[0], b[1], b[2], b[3]]) }
@@ -447,14 +448,29 @@ impl MipsIsa {
             }
             AIns::Jcc(k, t) => {
                 let t = addr_of(t);
-                let w = match k % 3 {
+                let w = match k % 8 {
                     0 => (0x04 << 26) | (8 << 21) | (9 << 16) | off(t),   // beq $t0, $t1
                     1 => (0x05 << 26) | (8 << 21) | (9 << 16) | off(t),   // bne $t0, $t1
-                    _ => (0x04 << 26) | (10 << 21) | off(t),              // beqz $t2
+                    2 => (0x04 << 26) | (10 << 21) | off(t),              // beqz $t2
+                    3 => (0x05 << 26) | (10 << 21) | off(t),              // bnez $t2
+                    4 => (0x01 << 26) | (11 << 21) | (1 << 16) | off(t),  // bgez $t3
+                    5 => (0x07 << 26) | (11 << 21) | off(t),              // bgtz $t3
+                    6 => (0x06 << 26) | (11 << 21) | off(t),              // blez $t3
+                    _ => (0x01 << 26) | (11 << 21) | off(t),              // bltz $t3
                 };
                 v.extend(be32(w)); v.extend(be32(Self::plain(slot)));
             }
-            AIns::Stop => { v.extend(be32(0x03e0_0008)); v.extend(be32(Self::plain(slot))); } // jr $ra
+            AIns::Call(k, t) => {
+                let t = addr_of(t);
+                let w = match k % 4 {
+                    0 => (0x01 << 26) | (0x11 << 16) | off(t),                    // bal
+                    1 => (0x03 << 26) | (((t >> 2) as u32) & 0x03ff_ffff),        // jal
+                    2 => (0x01 << 26) | (11 << 21) | (0x11 << 16) | off(t),       // bgezal $t3
+                    _ => (0x01 << 26) | (11 << 21) | (0x10 << 16) | off(t),       // bltzal $t3
+                };
+                v.extend(be32(w)); v.extend(be32(Self::plain(slot)));
+            }
+            AIns::Stop(_) => { v.extend(be32(0x03e0_0008)); v.extend(be32(Self::plain(slot))); } // jr $ra
         }
         v
     }
@@ -478,6 +494,14 @@ impl Isa for MipsIsa {
                 if op == 0x04 && rs == 0 && rt == 0 { Some(Unit { len: 8, plain: false, succ: vec![rel] }) }
                 else { Some(Unit { len: 8, plain: false, succ: vec![rel, a + 8] }) }
             }
+            // the harness's own table of the generated branch mnemonics (from the encoding, independent of the lifter)
+            0x06 | 0x07 => Some(Unit { len: 8, plain: false, succ: vec![rel, a + 8] }),                     // blez, bgtz
+            0x01 => match (w >> 16) & 31 {
+                0 | 1 => Some(Unit { len: 8, plain: false, succ: vec![rel, a + 8] }),                       // bltz, bgez
+                0x10 | 0x11 => Some(Unit { len: 8, plain: true, succ: vec![a + 8] }),                       // bltzal, bgezal, bal: linking
+                _ => panic!("harness: unexpected MIPS REGIMM word {:#x}", w),
+            },
+            0x03 => Some(Unit { len: 8, plain: true, succ: vec![a + 8] }),                                  // jal: linking
             0x02 => Some(Unit { len: 8, plain: false, succ: vec![((a + 4) & 0xf000_0000) | (((w & 0x03ff_ffff) as u64) << 2)] }),
             _ if w == 0x03e0_0008 => Some(Unit { len: 8, plain: false, succ: vec![] }),
             _ => panic!("harness: unexpected MIPS word {:#x}", w),
@@ -500,16 +524,41 @@ impl X86Isa {
             _ => vec![0x90],
         }
     }
+    /// opcode bytes before the displacement, and whether the displacement is rel8
+    fn opcode(i: AIns) -> (Vec<u8>, bool) {
+        match i {
+            AIns::Jcc(k, _) => match k % 37 {
+                k @ 0..=15 => (vec![0x70 + k], true),                 // jo jno jb jae je jne jbe ja js jns jp jnp jl jge jle jg  rel8
+                k @ 16..=31 => (vec![0x0f, 0x80 + (k - 16)], false),  // the same sixteen, rel32
+                32 => (vec![0xe3], true),                             // jecxz
+                33 => (vec![0x67, 0xe3], true),                       // jcxz
+                34 => (vec![0xe2], true),                             // loop
+                35 => (vec![0xe1], true),                             // loope
+                _ => (vec![0xe0], true),                              // loopne
+            },
+            AIns::Jmp(k, _) => if k % 2 == 0 { (vec![0xeb], true) } else { (vec![0xe9], false) },
+            AIns::Call(..) => (vec![0xe8], false),
+            _ => (vec![], true),
+        }
+    }
+    fn rel8(i: AIns) -> bool { matches!(i, AIns::Jcc(..) | AIns::Jmp(..)) && Self::opcode(i).1 }
     fn size(i: AIns) -> usize {
-        match i { AIns::Plain(v) => Self::plain(v).len(), AIns::Jmp(..) | AIns::Jcc(..) => 2, AIns::Stop => 1 }
+        match i {
+            AIns::Plain(v) => Self::plain(v).len(),
+            AIns::Stop(_) => 1,
+            _ => { let (op, r8) = Self::opcode(i); op.len() + if r8 { 1 } else { 4 } }
+        }
     }
     fn encode(i: AIns, a: u64, addr_of: &dyn Fn(usize) -> u64) -> Vec<u8> {
-        let rel = |t: u64| -> u8 { (t as i64 - (a as i64 + 2)) as i8 as u8 };
         match i {
             AIns::Plain(v) => Self::plain(v),
-            AIns::Jmp(_, t) => vec![0xeb, rel(addr_of(t))],
-            AIns::Jcc(k, t) => vec![[0x74u8, 0x75, 0x72, 0x7c][(k % 4) as usize], rel(addr_of(t))],
-            AIns::Stop => vec![0xf4],
+            AIns::Stop(k) => vec![if k % 2 == 0 { 0xf4 } else { 0xc3 }],      // hlt / ret
+            AIns::Jmp(_, t) | AIns::Jcc(_, t) | AIns::Call(_, t) => {
+                let (mut v, r8) = Self::opcode(i);
+                let d = addr_of(t) as i64 - (a as i64 + Self::size(i) as i64);
+                if r8 { v.push(d as i8 as u8) } else { v.extend((d as i32).to_le_bytes()) }
+                v
+            }
         }
     }
 }
@@ -518,20 +567,30 @@ impl Isa for X86Isa {
     fn endian(&self) -> Endian { Endian::Little }
     fn translator(&self) -> &dyn Translator { &self.tr }
     fn decode(&self, p: &Prog, a: u64) -> Option<Unit> {
+        // the harness's own table of the generated mnemonics (from the encoding, independent of the lifter):
+        // length, and for control transfers the targets
         let b0 = p.get(a, 1)?[0];
-        let len = match b0 { 0x90 | 0xf4 => 1, 0x83 => 3, 0xb8 => 5, 0xeb | 0x74 | 0x75 | 0x72 | 0x7c => 2, _ => panic!("harness: unexpected x86 byte {:#x}", b0) };
+        let len = match b0 {
+            0x90 | 0xf4 | 0xc3 => 1, 0x83 => 3, 0xb8 | 0xe9 | 0xe8 => 5, 0xeb | 0x70..=0x7f | 0xe0..=0xe3 => 2, 0x67 => 3, 0x0f => 6,
+            _ => panic!("harness: unexpected x86 byte {:#x}", b0),
+        };
         let b = p.get(a, len)?;
-        let t = || (a as i64 + 2 + b[1] as i8 as i64) as u64;
+        let next = a + len as u64;
+        let t8 = (next as i64 + b[len - 1] as i8 as i64) as u64;
+        let t32 = || (next as i64 + i32::from_le_bytes([b[len - 4], b[len - 3], b[len - 2], b[len - 1]]) as i64) as u64;
         Some(match b0 {
-            0xf4 => Unit { len: 1, plain: false, succ: vec![] },
-            0xeb => Unit { len: 2, plain: false, succ: vec![t()] },
-            0x74 | 0x75 | 0x72 | 0x7c => Unit { len: 2, plain: false, succ: vec![a + 2, t()] },
-            _ => Unit { len: len as u64, plain: true, succ: vec![a + len as u64] },
+            0xf4 | 0xc3 => Unit { len: 1, plain: false, succ: vec![] },                       // hlt, ret
+            0xeb => Unit { len: 2, plain: false, succ: vec![t8] },                            // jmp rel8
+            0xe9 => Unit { len: 5, plain: false, succ: vec![t32()] },                         // jmp rel32
+            0x70..=0x7f | 0xe0..=0xe3 => Unit { len: 2, plain: false, succ: vec![next, t8] }, // jcc rel8, loopne/loope/loop/jecxz
+            0x67 => { assert_eq!(b[1], 0xe3); Unit { len: 3, plain: false, succ: vec![next, t8] } } // jcxz
+            0x0f => { assert!((0x80..=0x8f).contains(&b[1])); Unit { len: 6, plain: false, succ: vec![next, t32()] } } // jcc rel32
+            _ => Unit { len: len as u64, plain: true, succ: vec![next] },                     // nop add mov, call rel32 (the lifter falls through)
         })
     }
     fn registers(&self) -> Vec<(String, usize)> {
-        let mut v: Vec<(String, usize)> = ["eax", "ebx", "ecx"].iter().map(|n| (n.to_string(), 32)).collect();
-        v.extend(["ZF", "CF", "SF", "OF"].iter().map(|n| (n.to_string(), 1)));
+        let mut v: Vec<(String, usize)> = ["eax", "ebx", "ecx", "esp"].iter().map(|n| (n.to_string(), 32)).collect();
+        v.extend(["ZF", "CF", "SF", "OF", "PF"].iter().map(|n| (n.to_string(), 1)));
         v
     }
 }
@@ -549,9 +608,10 @@ fn gen_real(r: &mut Rng, mips: bool, fixed: Option<(u64, Vec<AIns>, usize)>) -> 
             for i in 0..n {
                 let last = i == n - 1;
                 let tgt = |r: &mut Rng| -> usize { match r.below(30) { 0 => (i + 1).min(n - 1), 1 => i, _ => r.below(n as u64) as usize } };
-                let x = if last { if r.chance(1, 2) { AIns::Stop } else { AIns::Jmp(r.below(4) as u8, tgt(r)) } }
+                let x = if last { if r.chance(1, 2) { AIns::Stop(r.below(2) as u8) } else { AIns::Jmp(r.below(4) as u8, tgt(r)) } }
                 else if r.below(100) < ctl {
-                    match r.below(10) { 0..=5 => AIns::Jcc(r.below(12) as u8, tgt(r)), 6..=8 => AIns::Jmp(r.below(4) as u8, tgt(r)), _ => AIns::Stop }
+                    match r.below(12) { 0..=5 => AIns::Jcc(r.below(74) as u8, tgt(r)), 6..=8 => AIns::Jmp(r.below(4) as u8, tgt(r)),
+                                        9 | 10 => AIns::Call(r.below(4) as u8, tgt(r)), _ => AIns::Stop(r.below(2) as u8) }
                 } else { AIns::Plain(r.below(12) as u8) };
                 ins.push(x);
             }
@@ -566,8 +626,9 @@ fn gen_real(r: &mut Rng, mips: bool, fixed: Option<(u64, Vec<AIns>, usize)>) -> 
     // x86: rel8 must reach; retarget to the unit nearest to the jump that is in range
     if !mips {
         for i in 0..n {
+            if !X86Isa::rel8(ins[i]) { continue; }
             let t = match ins[i] { AIns::Jmp(_, t) | AIns::Jcc(_, t) => t, _ => continue };
-            let from = offs[i] as i64 + 2;
+            let from = offs[i + 1] as i64;
             let ok = |t: usize| { let d = offs[t] as i64 - from; (-128..=127).contains(&d) };
             if !ok(t) {
                 let mut t2 = t;
@@ -618,6 +679,23 @@ fn gen_real(r: &mut Rng, mips: bool, fixed: Option<(u64, Vec<AIns>, usize)>) -> 
             manual.push((addr_of(h), addr_of(t), None));
             tags.push("has:manual".into());
         }
+    }
+    // which control-transfer mnemonics occur (distribution evidence)
+    for i in &ins {
+        let name: Option<String> = match (*i, mips) {
+            (AIns::Jcc(k, _), true) => Some(["beq", "bne", "beqz", "bnez", "bgez", "bgtz", "blez", "bltz"][(k % 8) as usize].into()),
+            (AIns::Jmp(k, _), true) => Some(if k % 2 == 0 { "b" } else { "j" }.into()),
+            (AIns::Call(k, _), true) => Some(["bal", "jal", "bgezal", "bltzal"][(k % 4) as usize].into()),
+            (AIns::Stop(_), true) => Some("jr".into()),
+            (AIns::Jcc(k, _), false) => Some(match k % 37 {
+                k @ 0..=31 => format!("j{}{}", ["o", "no", "b", "ae", "e", "ne", "be", "a", "s", "ns", "p", "np", "l", "ge", "le", "g"][(k % 16) as usize], if k < 16 { ".rel8" } else { ".rel32" }),
+                32 => "jecxz".into(), 33 => "jcxz".into(), 34 => "loop".into(), 35 => "loope".into(), _ => "loopne".into() }),
+            (AIns::Jmp(k, _), false) => Some(if k % 2 == 0 { "jmp.rel8" } else { "jmp.rel32" }.into()),
+            (AIns::Call(..), false) => Some("call.rel32".into()),
+            (AIns::Stop(k), false) => Some(if k % 2 == 0 { "hlt" } else { "ret" }.into()),
+            _ => None,
+        };
+        if let Some(nm) = name { let t = format!("mn:{}:{}", if mips { "mips" } else { "x86" }, nm); if !tags.contains(&t) { tags.push(t); } }
     }
     let same = (0..n).any(|i| matches!(ins[i], AIns::Jcc(_, t) if t == i + 1));
     if same { tags.push("has:jcc-to-next".into()); }
@@ -756,7 +834,7 @@ fn run_case(isa: &dyn Isa, g: Gen, r: &mut Rng, toy: bool) -> Case {
 /// hand-written regression programs (indices 0..N_FIXED): the minimised forms of past failures and of the
 /// situations the property names
 const N_FIXED: u64 = 11;
-const N_FIXED_REAL: u64 = 8;
+const N_FIXED_REAL: u64 = 10;
 fn fixed_toy(index: u64) -> Gen {
     use Toy::*;
     let (base, ins, fa_idx, holes, manual): (u64, Vec<Toy>, usize, Vec<usize>, Vec<(usize, usize, Option<Expression>)>) = match index {
@@ -815,12 +893,25 @@ fn gen_case(seed: u64, index: u64) -> Case {
     if index < N_FIXED + N_FIXED_REAL {
         use AIns::*;
         let k = index - N_FIXED;
+        if k >= 8 {
+            // every generated control-transfer mnemonic once (k = 8: MIPS, k = 9: x86), each jumping over one plain instruction
+            let mips = k == 8;
+            let mut ins: Vec<AIns> = vec![];
+            let nj = if mips { 8 } else { 37 };
+            for j in 0..nj { let i = ins.len(); ins.extend([Jcc(j as u8, i + 2), Plain(1)]); }
+            for j in 0..(if mips { 4 } else { 1 }) { let i = ins.len(); ins.extend([Call(j as u8, i + 2), Plain(2)]); }
+            for j in 0..2 { let i = ins.len(); ins.extend([Jmp(j as u8, i + 2), Plain(1), Plain(2)]); }
+            { let i = ins.len(); ins.extend([Jcc(0, i + 2), Stop(1), Stop(0)]); }
+            let g = gen_real(&mut r, mips, Some((0x1000, ins, 0)));
+            return if mips { run_case(&MipsIsa { tr: falcon::translator::mips::Mips::new() }, g, &mut r, false) }
+                   else { run_case(&X86Isa { tr: falcon::translator::x86::X86::new() }, g, &mut r, false) };
+        }
         let mips = k % 2 == 0;
         // a branch placed so that it (MIPS: its delay slot) straddles the end of the first 64-byte window
         let lead = if mips { 14 + (k / 2) as usize } else { 20 + (k / 2) as usize };
         let mut ins: Vec<AIns> = (0..lead).map(|i| Plain(if mips { 1 + (i % 3) as u8 } else { 1 })).collect();
         let t = ins.len() + 2;
-        ins.extend([Jcc(0, t), Plain(1), Plain(2), Stop]);
+        ins.extend([Jcc(0, t), Plain(1), Plain(2), Stop(0)]);
         let g = gen_real(&mut r, mips, Some((0x1000, ins, 0)));
         return if mips { run_case(&MipsIsa { tr: falcon::translator::mips::Mips::new() }, g, &mut r, false) }
                else { run_case(&X86Isa { tr: falcon::translator::x86::X86::new() }, g, &mut r, false) };
